@@ -15,6 +15,9 @@ import _griffe.docstrings.utils as DU
 from _griffe.docstrings.models import DocstringSectionText
 from _griffe.enumerations import ParameterKind as PK
 from _griffe.models import Docstring, Function, Module, Parameter, Parameters
+import ast
+
+from _griffe.expressions import get_expression
 from vlib.ob import TIER, cover, fail, obligation, tiered
 from vlib.stubs import realize_regexes, silence_logging
 
@@ -54,6 +57,30 @@ LAYOUTS = [
     [("parameters", 1, True), ("note", 0, False), ("returns", 1, True)],
     [("raises", 1, False), ("attributes", 1, False), ("text", 0, False)],
 ]
+# Google only: named return/yield items WITHOUT a type ("sig"): the annotation comes from the parent's return annotation
+# (whole annotation for a single item, the i-th tuple element for several items, the yield/return slot of a Generator)
+GOOGLE_SIG_LAYOUTS = [
+    ([("returns", 1, "sig")], "tuple[int, str]"),
+    ([("returns", 2, "sig")], "tuple[int, str]"),
+    ([("yields", 1, "sig"), ("returns", 1, "sig")], "Generator[int, str, bool]"),
+    ([("parameters", 1, False), ("returns", 1, "sig")], "bool"),
+    ([("yields", 1, "sig")], "Iterator[int]"),
+]
+PARENT_RETURNS = {len(LAYOUTS) + i: ret for i, (_, ret) in enumerate(GOOGLE_SIG_LAYOUTS)}
+
+
+def _expected_from_signature(ret, kind, n, idx):
+    if ret == "bool":
+        return "bool"
+    if ret.startswith("tuple["):
+        return ret if n == 1 else ["int", "str"][idx]
+    if ret.startswith("Generator["):
+        return "int" if kind == "yields" else "bool"
+    if ret.startswith("Iterator["):
+        return "int" if kind == "yields" else None
+    raise KeyError(ret)
+
+
 SPHINX_LAYOUTS = [
     [("parameters", 2, True)],
     [("parameters", 1, False), ("returns", 1, True)],
@@ -86,7 +113,11 @@ def render_google(layout, names, descs, second, title):
             nm, ds = names[it % 2], descs[it % 2]
             it += 1
             dl = _desc(ds, second)
-            if kind in ("returns", "yields"):
+            if kind in ("returns", "yields") and typed == "sig":
+                # a named item without a type: the annotation is taken from the signature
+                lines.append("    r" + nm + ": " + dl[0])
+                items.append(("r" + nm, ("FROMSIG", kind, n, len(items)), "\n".join(dl)))
+            elif kind in ("returns", "yields"):
                 # default options: the type of a returned value is written in parentheses (always typed here: an untyped
                 # description containing a colon would be read as `name: description`)
                 lines.append("    (int): " + dl[0])
@@ -207,15 +238,18 @@ def _make(style, layouts):
         bounds={"layouts": [str(l) for l in layouts], "item names": f"1..{tiered(1, 2)} chars over 'pq' (distinct)", "descriptions": "'d' + optional second char (colon or space) , optional continuation line",
                 "admonition title": "absent or 't'", "parent": "function whose signature documents the parameters: annotations/defaults come from it when omitted"},
         value_symbolic=["item names n1,n2", "descriptions d1,d2", "admonition title"], selectors=["layout (section kinds, item counts, typed or not), multi-line descriptions (driver-bound)"],
-        stubs=STUBS + ["docstring.lines supplied pre-split"], must_cover=["parsed-back"],
+        stubs=STUBS + ["docstring.lines supplied pre-split"], must_cover=["parsed-back"] + (["annotation-from-return-signature"] if style == "google" else []),
         grid=lambda seed: [dict(layout=i, second=False, n1="p", n2="q", d1="d", d2="d:" if style != "sphinx" else "de", title="") for i in range(len(layouts))],
     )
     def roundtrip(layout: int, second: bool, n1: str, n2: str, d1: str, d2: str, title: str) -> bool:
         """parse(render(structure)) == structure."""
         lay = layouts[layout]
         lines, want = RENDER[style](lay, (n1, n2), (d1, d2), second, title)
-        parent = Function("f", parameters=Parameters(Parameter(n1, annotation="str", kind=PK.positional_or_keyword, default="0"), Parameter(n2, annotation="str", kind=PK.positional_or_keyword, default="1")), returns="bool")
-        Module("m").set_member("f", parent)
+        ret = PARENT_RETURNS.get(layout, "bool") if style == "google" else "bool"
+        mod = Module("m")
+        returns = "bool" if ret == "bool" else get_expression(ast.parse(ret, mode="eval").body, mod, parse_strings=False)
+        parent = Function("f", parameters=Parameters(Parameter(n1, annotation="str", kind=PK.positional_or_keyword, default="0"), Parameter(n2, annotation="str", kind=PK.positional_or_keyword, default="1")), returns=returns)
+        mod.set_member("f", parent)
         d = PreSplit(lines, parent)
         got = observed(PARSE[style](d))
         want = [tuple(w) for w in want]
@@ -225,7 +259,10 @@ def _make(style, layouts):
             if w[0] in ("text", "admonition"):
                 norm.append(w)
             else:
-                norm.append((w[0], [("" if w[0] in ("raises", "warns") else nm, ("str" if ann == "SIG" else "bool" if ann == "RET" else ann), ds) for nm, ann, ds in w[1]]))
+                norm.append((w[0], [("" if w[0] in ("raises", "warns") else nm,
+                                     ("str" if ann == "SIG" else "bool" if ann == "RET" else _expected_from_signature(ret, *ann[1:]) if isinstance(ann, tuple) else ann), ds) for nm, ann, ds in w[1]]))
+                if any(isinstance(ann, tuple) for _, ann, _ in w[1]):
+                    cover("annotation-from-return-signature")
         if got != norm:
             return fail(f"{style}: parsed {got} != written {norm}; lines {lines}")
         cover("parsed-back")
@@ -235,6 +272,6 @@ def _make(style, layouts):
     return roundtrip
 
 
-_make("google", LAYOUTS)
+_make("google", LAYOUTS + [lay for lay, _ in GOOGLE_SIG_LAYOUTS])
 _make("numpy", [lay for lay in LAYOUTS if not any(k == "text" for k, _, _ in lay)])  # numpydoc has no free text between sections
 _make("sphinx", SPHINX_LAYOUTS)
